@@ -317,6 +317,12 @@ func (ctx *_builtinJSON_stringifyContext) str(key Value, holder *Object) bool {
 			} else if v, ok := o1.origValue.Interface().(json.Marshaler); ok {
 				b, err := v.MarshalJSON()
 				if err != nil {
+					if _, ok := err.(*Exception); ok {
+						panic(err)
+					}
+					if isUncatchableException(err) {
+						panic(err)
+					}
 					panic(ctx.r.NewGoError(err))
 				}
 				ctx.buf.Write(b)
